@@ -43,7 +43,9 @@ def starts(draw):
         fm = draw(st.lists(st.sampled_from(["fits", "npy"] + (["jpg"] if b == "image" else [])), min_size=1, max_size=2, unique=True))
         save.append({f"detector.{b}.array": fm})
     s = {"kind": kind, "save": save, "steps": draw(st.integers(1, 3)), "custom_dir": draw(st.sampled_from(["", "", "mysim_"])),
-         "tick": draw(st.integers(0, 2)), "level0": draw(st.integers(1, 30))}
+         "tick": draw(st.integers(0, 2)), "level0": draw(st.integers(1, 30)),
+         # a raw unsigned 16-bit FITS frame is loaded first and its header kept on the detector (include_header: true)
+         "raw_header": draw(st.sampled_from([False, False, False, True]))}
     if kind != "exposure":
         s["levels"] = draw(st.lists(st.integers(1, 40), min_size=1, max_size=3, unique=True))
         s["temps"] = draw(st.one_of(st.none(), st.lists(st.sampled_from([150.0, 250.0]), min_size=1, max_size=2, unique=True)))
@@ -90,6 +92,14 @@ def _spec(start, parent):
     extra = {"photon_collection": [{"name": "wph", "func": P + "writer", "enabled": True,
                                     "arguments": {"plan": {"photon": {"dtype": "float64", "values": [start["level0"], start["level0"] + 1, start["level0"] + 2]},
                                                            "charge": {"dtype": "float64", "values": [5, 6, 7]}}, "tag": "wph"}}]}
+    if start.get("raw_header"):
+        from astropy.io import fits
+
+        raw = Path(parent).parent / "raw_u16.fits"
+        if not raw.exists():
+            fits.PrimaryHDU(np.arange(6, dtype=np.uint16).reshape(2, 3) + 1000).writeto(raw)  # (astropy stores it with BZERO = 32768)
+        extra["photon_collection"].insert(0, {"name": "raw", "func": "pyxel.models.photon_collection.load_image", "enabled": True,
+                                              "arguments": {"image_file": str(raw), "include_header": True}})
     pipe = echo_pipeline(extra)
     pipe["groups"]["charge_collection"][0]["arguments"]["level"] = start["level0"]
     outputs = {"output_folder": str(parent), "save_data_to_file": start["save"]}
